@@ -51,12 +51,13 @@ def penalty_obligations(ctx, G, labels, anc, Pd, rel, spin, warned, lamz, tag=''
     return obs
 
 
-def make_single(ctx, rel, B, log, bmode, n, shape, spin=False, bb=None):
+def make_single(ctx, rel, B, log, bmode, n, shape, spin=False, bb=None, Bbig=None):
     """one constraint P R 0 on an empty PCBO/PCSO; P dense over the universe with integer coefficients in [-B,B]"""
     import qubovert as qv
     labels = _labels(n, spin)
     U = _universe(labels, shape)
-    cs = {k: ctx.int_var('c' + ''.join(str(labels.index(i)) for i in k), -B, B) for k in U}
+    # Bbig: a wider range for the linear coefficient of the last label (special forms such as z == x AND y need a 2 there on spins)
+    cs = {k: ctx.int_var('c' + ''.join(str(labels.index(i)) for i in k), -(Bbig if (Bbig and k == (labels[-1],)) else B), (Bbig if (Bbig and k == (labels[-1],)) else B)) for k in U}
     lam = ctx.real_var('lam', 0, lo_strict=True)
     symbolic = ctx.concrete is None
     lam_idx = ctx.byname.get('lam') if symbolic else None
@@ -112,13 +113,12 @@ def make_single(ctx, rel, B, log, bmode, n, shape, spin=False, bb=None):
                 if g is None:
                     G = None; break
                 G[k] = Sym(g)
-            obs.append(Ob('penalty is lam times a lam-free polynomial', G is not None))
             if G is None:
+                # not lam times a lam-free polynomial: ask the semantic queries of F itself (non-linear in lam)
                 G = dict(H); lamz = ctx.z(lam)
         else:
             from fractions import Fraction
             G = {k: Fraction(v) / lam for k, v in H.items()}
-            obs.append(Ob('penalty is lam times a lam-free polynomial', True))
         obs += penalty_obligations(ctx, G, labels, anc, Pd, rel, spin, warned, lamz)
         # is_solution_valid(x)  <=>  P(x) R 0      (nested exploration of the real method)
         for x in O.assigns(labels, spin):
@@ -201,13 +201,11 @@ def make_sequence(ctx, rel, B, log, seq, spin=False):
                 if g is None:
                     G = None; break
                 G[k] = Sym(g)
-            obs.append(Ob('penalty is lam times a lam-free polynomial', G is not None))
             if G is None:
                 G = dict(H); lamz = ctx.z(lam)
         else:
             from fractions import Fraction
             G = {k: Fraction(v) / lam for k, v in H.items()}
-            obs.append(Ob('penalty is lam times a lam-free polynomial', True))
         vals = (1, -1) if spin else (0, 1)
         for x in O.assigns(all_labels, spin):
             holds = z3.And([RELOP[r](ctx.z(O.val_poly(P, x, spin))) for r, P, lg in steps])
